@@ -5,8 +5,8 @@ import os
 import vlib
 
 HAND = os.path.join(vlib.SPEC, "net", "ClientApiTable.json")
-INVS = "TypeOK DoneAfterHandler CleanAfterDone MutexOwner".split()
-PROPS = "CallReturns CloseCompletes SecondCallReturns ScriptPlayed".split()
+INVS = "TypeOK DoneAfterHandler CleanAfterDone MutexOwner TimerSound TimeoutEndsSilence".split()
+PROPS = "CallReturns CloseCompletes SecondCallReturns ScriptPlayed SilenceTimesOut".split()
 
 
 def build_table(drv, repo, notes):
@@ -64,9 +64,17 @@ def build_table(drv, repo, notes):
                                          (api["name"], rp["handler"], extra))
                 replies.append({"name": rp["name"], "handler": rp["handler"], "eff": rp["eff"],
                                 "unlock": bool(rp.get("unlock")), "restart": bool(rp.get("restart")),
-                                "push": push + got})
+                                "untimed": bool(rp.get("untimed")), "push": push + got})
+            # state timeout of the state the stage waits in: the Config field the client's state map takes it from
+            # ("=Const": a fixed one of the package's state map)
+            tmo = st.get("timeout", "")
+            fixed = tmo.startswith("=")
+            if tmo and not fixed and tmo not in ff.get("timeout_fields", []):
+                raise vlib.MachineryError("table is stale: %s does not take a state timeout from config.%s (it has: %s)" %
+                                          (api["file"], tmo, ff.get("timeout_fields")))
             stages.append({"req": st["req"], "reqtype": st.get("reqtype", 0), "bg": bg, "wait": st["wait"],
-                           "done": bool(done), "forbid": st["forbid"], "replies": replies})
+                           "done": bool(done), "forbid": st["forbid"], "replies": replies,
+                           "timed": bool(tmo), "tmopt": tmo.lstrip("="), "tmofixed": fixed})
         apis.append({"name": api["name"], "proto": api["proto"], "conn": api["conn"], "pid": api["pid"],
                      "file": api["file"], "type": api["type"], "func": api["func"],
                      "mutex": bool(api["mutex"]) and api["mutex"] in fn["locks"],
@@ -93,7 +101,8 @@ def predictions(r):
     cases = {}
     for c in vlib.read_ndjson(cases_p):
         cases[(c["api"], tuple(c["script"]))] = {"ret": set(), "ret2": set(), "closeret": set(), "errclosed": set(),
-                                                 "safe": set(), "alive": set(), "played": set(), "blocked": set(), "n": 0}
+                                                 "safe": set(), "alive": set(), "played": set(), "blocked": set(),
+                                                 "tmo": set(), "n": 0}
     for row in vlib.read_ndjson(outs_p):
         if isinstance(row, str):
             row = json.loads(row)
@@ -102,7 +111,7 @@ def predictions(r):
             raise vlib.MachineryError("terminal state of an unknown case: %s" % (k,))
         c = cases[k]
         c["n"] += 1
-        for f in ("ret", "ret2", "closeret", "errclosed", "safe", "played"):
+        for f in ("ret", "ret2", "closeret", "errclosed", "safe", "played", "tmo"):
             c[f].add(row[f])
         c["alive"].add(tuple(sorted(row["alive"])))
         if row["blocked"]:
@@ -112,7 +121,7 @@ def predictions(r):
         c = cases[k]
         if c["n"] == 0:
             raise vlib.MachineryError("case without terminal state: %s" % (k,))
-        pred = {f: sorted(c[f]) for f in ("ret", "ret2", "closeret", "errclosed", "safe", "played")}
+        pred = {f: sorted(c[f]) for f in ("ret", "ret2", "closeret", "errclosed", "safe", "played", "tmo")}
         pred["alive"] = [list(a) for a in sorted(c["alive"])]
         pred["blocked"] = sorted(c["blocked"])
         row = {"api": k[0], "script": list(k[1]), "idx": i, "pred": pred}
@@ -303,6 +312,8 @@ def run(chk, replay=None):
         "api": lambda: _tlc(chk, cfg, table_path, timeout=300 if quick else 1200, workers=4 if quick else 8,
                             coverage=not quick, add=False),
         "api_repaired": lambda: _tlc(chk, rcfg, table_path, timeout=300 if quick else 1200, workers=4, add=False),
+        # the stateLoop that keeps a fired timer: TLC has to reject it
+        "api_keeptimer": lambda: _tlc(chk, "ClientApiKeepTimer.cfg", table_path, timeout=300, workers=1, add=False),
     }
     for kind, (mod, _, _, _, _) in LIFE.items():
         lcfg = mod + (".cfg" if quick or kind == "bulk" else "Thorough.cfg")
@@ -325,7 +336,7 @@ def run(chk, replay=None):
     if errs:
         raise errs[sorted(errs)[0]]
     for name in jobs:
-        chk.add_tlc({"api": cfg, "api_repaired": rcfg}.get(name, name), res[name])
+        chk.add_tlc({"api": cfg, "api_repaired": rcfg, "api_keeptimer": "ClientApiKeepTimer.cfg"}.get(name, name), res[name])
     r, rr = res["api"], res["api_repaired"]
     vlib.tlc_must_pass(r, cfg)
     if r.coverage_zero:
@@ -336,6 +347,14 @@ def run(chk, replay=None):
         1 for x in rows if False in x["pred"]["ret"] or False in x["pred"]["ret2"])
     chk.extra["cases_where_the_model_predicts_a_leftover"] = sum(1 for x in rows if x["pred"]["alive"] != [[]])
     chk.extra["cases_with_a_race_in_the_model"] = sum(1 for x in rows if len(x["pred"]["ret"]) > 1)
+    tmo_rows = [x for x in rows if x["script"] and x["script"][-1] == "tmo"]
+    chk.extra["cases_of_silence_beyond_a_state_timeout"] = len(tmo_rows)
+    chk.extra["of_which_the_timeout_fires_in_every_behaviour_of_the_model"] = sum(1 for x in tmo_rows if x["pred"]["tmo"] == [True])
+    chk.extra["calls_with_a_timed_waiting_state"] = {
+        a["name"]: [(s["tmopt"] + (" (fixed)" if s["tmofixed"] else "")) if s["timed"] else "-" for s in a["stages"]]
+        for a in table["apis"] if any(s["timed"] for s in a["stages"])}
+    if not tmo_rows:
+        raise vlib.MachineryError("ClientApi produced no case of silence beyond a state timeout")
     unsafe = [x for x in rows if False in x["pred"]["safe"]]
     if unsafe:
         # TB: the extracted shutdown closes ErrorChan under a forwarder that may still send on it
@@ -347,6 +366,11 @@ def run(chk, replay=None):
 
     # the repaired design satisfies the property's liveness statements (and the spec is not vacuous)
     vlib.tlc_must_pass(rr, rcfg)
+    rk = res["api_keeptimer"]
+    if rk.ok or "StateLoopEnds" not in (rk.violation or ""):
+        raise vlib.MachineryError("ClientApiKeepTimer.cfg: TLC did not reject the stateLoop that keeps a fired timer "
+                                  "(StateLoopEnds): %s" % (rk.violation or rk.error or "no error"))
+    chk.extra["defective_design_tlc_must_reject: stateLoop keeps the fired state timer"] = "rejected: StateLoopEnds"
 
     # ---- the life-cycle modules: server restart on Done, client Stop(), keep-alive timer, bulk send
     life = []
